@@ -373,7 +373,8 @@ def snapshot(ED):
 class World:
     """one session: scratch tree + the same facts as a Model_C32 world"""
 
-    SRC = {"a": 1, "b": 2, "c": 3, "e.1": 4, "d": "dir", "dd": "dir"}
+    # name -> content id | "dir" (empty directory) | {file name: content id} (directory with regular files)
+    SRC = {"a": 1, "b": 2, "c": 3, "e.1": 4, "d": "dir", "dd": {"x": 5}}
 
     def __init__(self, chk, top, pre, plan, faults, eapi="7"):
         from pkgcore.ebuild import ebd_ipc
@@ -389,6 +390,11 @@ class World:
             p = os.path.join(self.src, n)
             if v == "dir":
                 os.mkdir(p)
+            elif isinstance(v, dict):
+                os.mkdir(p)
+                for kn, kv in v.items():
+                    with open(os.path.join(p, kn), "w") as f:
+                        f.write(f"content-{kv}")
             else:
                 with open(p, "w") as f:
                     f.write(f"content-{v}")
@@ -425,6 +431,18 @@ class World:
         snap = snapshot(self.ED) if self.image_comparable() else []
         return wire, consumed, classify_end(exc, shutdowns, self.ebd_ipc), snap, len(oracle.plan)
 
+    def _src_entries(self):
+        out = []
+        for n, v in self.SRC.items():
+            if v == "dir":
+                out.append(f"{esc(n)}=d")
+            elif isinstance(v, dict):
+                out.append(f"{esc(n)}=d:" + ",".join(esc(k) for k in v))
+                out.extend(f"{esc(n + '/' + k)}=f{c}" for k, c in v.items())
+            else:
+                out.append(f"{esc(n)}=f{v}")
+        return out
+
     def image_comparable(self):
         """a REAL external command that failed may have done part of its work (install -d a b c):
         the model knows nothing about that, so the final image is not compared in such a session"""
@@ -436,7 +454,7 @@ class World:
         parts = [
             esc(self.ED), esc(self.src),
             ";".join(f"{esc(cmd)}={code}" for cmd, (_, code) in HELPERS.items()),
-            ";".join(f"{esc(n)}=" + ("d" if v == "dir" else f"f{v}") for n, v in self.SRC.items()),
+            ";".join(self._src_entries()),
             ";".join(esc(e.split("=")[0]) + "=" + e.split("=")[1].replace(",", ",") for e in self.pre),
             ";".join(",".join([str(st)] + [esc(l) for l in ls]) for st, ls in answers),
             ";".join(f"{k},{e},{esc(b)}" for k, e, b in self.faults),
@@ -536,6 +554,33 @@ def gen_request(rng, w_plan, flavour):
         if rng.random() < 0.08:
             args = []
         return "dodir", nonfatal, quote_opts(opts), args
+    if flavour == "recursive_fallback":
+        # -r + a directory + options that force install(1): the directory walk has to go through the
+        # installers selected for THIS request (install -d for the directory, install for its files)
+        cmd = rng.choice(["doins", "dodoc"])
+        opts = ["--dest=" + rng.choice(DESTS)] if rng.random() < 0.9 else []
+        which = rng.choice(["ins", "dir", "both"])
+        if which in ("ins", "both"):
+            opts.append("--insoptions=" + rng.choice(INSOPTS_FALLBACK + ["-S", "-m0644 --bogus", "-m u=rwx,go=rx"]))
+        if which in ("dir", "both"):
+            opts.append("--diroptions=" + rng.choice(["-m u=rwx,go=rx", "-m a=r", "-v -m0700", "-m0755 -Z"]))
+        args = ["-r", rng.choice(["dd", "dd", "d"])] + rng.sample(names, rng.randint(0, 2))
+        if rng.random() < 0.3:
+            args.append(args.pop(0))          # -r at the end
+        r = rng.random()
+        ncalls = 4
+        if r < 0.45:
+            for _ in range(ncalls):
+                w_plan.append(("real",) if rng.random() < REAL_SHARE else ("emul",))
+        elif r < 0.85:
+            k = rng.randrange(3)
+            for _ in range(k):
+                w_plan.append(("emul",))
+            w_plan.append(("say", rng.choice([1, 2, 127, 256]), rng.sample(STDERR_LINES, rng.randint(0, 3))))
+        else:
+            w_plan.append(("real",))
+        rng.shuffle(opts)
+        return cmd, nonfatal, quote_opts(opts), args
     # install family
     cmd = rng.choice(INSTALL_FAMILY)
     opts = ["--dest=" + rng.choice(DESTS)] if rng.random() < 0.9 else []
@@ -593,8 +638,8 @@ def gen_session(rng, chk_scratch, idx):
     flav_list = []
     for _ in range(n):
         flavour = rng.choices(
-            ["plain", "fallback", "fallback_fail", "malformed", "dodir", "alter", "query", "eapply"],
-            [30, 12, 12, 14, 12, 4, 8, 8])[0]
+            ["plain", "fallback", "fallback_fail", "malformed", "dodir", "alter", "query", "eapply", "recursive_fallback"],
+            [28, 10, 10, 13, 11, 4, 8, 8, 8])[0]
         flav_list.append(flavour)
         reqs.append(gen_request(rng, plan, flavour))
     if rng.random() < 0.25:
@@ -662,7 +707,8 @@ def session_oracle(w, meta, res):
         out.append((None, {"what": "a failing external command's exit status is not the status of a reply",
                            "request": [list(r) for r in reqs], "external_statuses": codes, "wire": wire}))
     img = dict(e.split("=", 1) for e in snap)
-    for (cmd, nonfatal, opts, args), line in zip(reqs, lines):
+    for idx, ((cmd, nonfatal, opts, args), line) in enumerate(zip(reqs, lines)):
+        later_names = {x for r_ in reqs[idx + 1:] for x in r_[3]}
         status = line.split("\x07", 1)[0]
         if not status.lstrip("-").isdigit():
             out.append((None, {"what": "reply without an integer status", "line": line}))
@@ -678,12 +724,28 @@ def session_oracle(w, meta, res):
             if t.startswith("--dest="):
                 dest = t[7:]
         fallback = any(t.startswith("--insoptions=") for t in toks)
+        want_mode = None
+        for t in toks:       # a symbolic mode the generator uses must end up on the installed files
+            if t.startswith("--insoptions="):
+                ws = t[13:].split()
+                for j, x in enumerate(ws):
+                    m = ws[j + 1] if x == "-m" and j + 1 < len(ws) else (x[2:] if x.startswith("-m") else None)
+                    if m in SYM_MODES:
+                        want_mode = SYM_MODES[m]
+        named = []
         for a in args:
             v = World.SRC.get(a)
-            if not isinstance(v, int):
-                continue
+            if isinstance(v, int):
+                named.append((a, v))
+            elif isinstance(v, dict) and "-r" in args and cmd in ("doins", "dodoc"):
+                named.extend((a + "/" + k, c) for k, c in v.items())
+        for a, v in named:
             rel = os.path.normpath(os.path.join(dest.lstrip("/"), a))
             got = img.get(rel)
+            if got is not None and got.startswith(f"f{v},") and want_mode is not None \
+                    and a.split("/")[0] not in later_names and int(got.split(",")[1]) != want_mode:
+                out.append((None, {"what": "status 0 but the requested (symbolic) mode was not applied",
+                                   "request": [cmd, opts, args], "file": rel, "found": got, "mode": oct(want_mode)}))
             if got is None or not got.startswith(f"f{v},"):
                 cls = "fallback-dest-is-directory" if (fallback and got is not None and got.startswith("d")) else None
                 out.append((cls, {"what": "status 0 but the file is not at its destination",
@@ -964,6 +1026,17 @@ def main(chk: Check):
         # a fallback request must not make later plain requests of the same helper use install(1)
         ([], [("real",), ("say", 1, ["must not be asked"])],
          [("doexe", True, "--dest=/usr '--insoptions=-m a=r'", ["a"]), ("doexe", True, "--dest=/usr", ["b"])], None),
+        # -r + directory + fallback-forcing options: the walk must use install(1) too (status and mode)
+        ([], [("real",), ("real",), ("real",)],
+         [("doins", True, "--dest=/usr '--insoptions=-m u=rwx,go=rx'", ["-r", "dd", "a"])], None),
+        ([], [("say", 2, ["install: boom"])],
+         [("doins", True, "--dest=/usr '--insoptions=-m a=r'", ["-r", "dd"])], None),
+        ([], [("say", 3, ["install: boom", "again"])],
+         [("dodoc", False, "--dest=/usr --insoptions=-S", ["-r", "dd"])], None),
+        ([], [("real",)], [("dodoc", True, "--dest=/usr '--insoptions=-m0644 --bogus'", ["-r", "dd"])], None),
+        ([], [("real",)], [("doins", True, "--dest=/usr '--diroptions=-m a=r'", ["-r", "d"])], None),
+        ([], [("say", 2, ["install: cannot create directory"])],
+         [("doins", True, "--dest=/opt '--diroptions=-m u=rwx,go=rx'", ["d", "-r"]), ("doins", True, "--dest=/opt", ["a"])], None),
         # known class: install(1) treats an existing directory at the destination as the target directory
         ([("usr/a", "d")], [("real",)], [("doexe", True, "--dest=/usr '--insoptions=-m u=rwx,go=rx'", ["a"])], None),
         # known class: a newline inside an argument splits the request
@@ -1001,8 +1074,8 @@ def main(chk: Check):
         plan = []
         calls = []
         for _ in range(rng.randint(2, 5)):
-            fl = rng.choices(["plain", "fallback", "fallback_fail", "malformed", "dodir", "alter", "query", "eapply"],
-                             [30, 10, 10, 14, 12, 4, 10, 8])[0]
+            fl = rng.choices(["plain", "fallback", "fallback_fail", "malformed", "dodir", "alter", "query", "eapply",
+                              "recursive_fallback"], [28, 10, 10, 13, 11, 4, 10, 8, 6])[0]
             cmd, nf, opts, args = gen_request(rng, plan, fl)
             # what unquoted ${opts}/${PWD} expansion and echo would mangle is exercised by stream bashrq only
             # through tame values: no glob characters, no leading dash-n, single spaces
